@@ -10,7 +10,7 @@ from . import facts as factsmod
 from . import mir
 
 VERIF = factsmod.VERIF
-EVIDENCE_DIR = os.path.join(VERIF, "evidence")
+EVIDENCE_DIR = os.environ.get("VERIF_EVIDENCE_DIR") or os.path.join(VERIF, "evidence")
 KNOWN = os.path.join(VERIF, "known_findings.jsonl")
 
 
